@@ -114,6 +114,9 @@ pub fn record_c05(args: &Args, mut out: Out) -> usize {
             tok_event(b, y, &mut out);
         }
     }
+    if args.num("ctok", 0) == 1 {
+        record_ctok(args, &mut out);
+    }
     // token lists with overlaps and random spaces; later tokens overwrite
     let nlists = args.num("lists", 2000) as usize;
     let mut lists: Vec<Vec<(String, &str)>> = vec![
@@ -533,4 +536,102 @@ pub fn record_c09(args: &Args, mut out: Out) -> usize {
 }
 
 #[allow(dead_code)]
+// ------------------------------------------------------------------------------------------------
+// C06, token half, constructed tokens: every well-formed token of the notation built with HandRangeToken::new
+// (not parsed), printed, and its text parsed back
+
+use espada::hand_range::{HandRangeTokenKind, RankPair};
+
+fn rank_pair(t: &str, h: usize, k: usize) -> RankPair {
+    match t {
+        "P" => RankPair::Pocket(RANKS[h]),
+        "S" => RankPair::Suited(RANKS[h], RANKS[k]),
+        _ => RankPair::Ofsuit(RANKS[h], RANKS[k]),
+    }
+}
+
+fn make_token(kind: &str, t: &str, h: usize, k: usize, e: usize, c: (usize, usize), w: f32) -> HandRangeToken {
+    let kd = match kind {
+        "plus" => HandRangeTokenKind::BottomClosedRankPairRange(rank_pair(t, h, k)),
+        "span" => HandRangeTokenKind::DoubleClosedRankPairRange(rank_pair(t, h, k), RANKS[e]),
+        "single" => HandRangeTokenKind::SingleRankPair(rank_pair(t, h, k)),
+        _ => HandRangeTokenKind::SingleCardPair(pair(c.0, c.1)),
+    };
+    HandRangeToken::new(kd, w)
+}
+
+fn ctok_event(kind: &'static str, t: &'static str, h: usize, k: usize, e: usize, c: (usize, usize), w: f32, out: &mut Out) {
+    let text = guarded(move || make_token(kind, t, h, k, e, c, w).to_string());
+    let orig = guarded(move || make_token(kind, t, h, k, e, c, w).into_iter().collect::<Vec<_>>());
+    let (fmtres, text) = match text {
+        Some(x) => ("ok", x),
+        None => ("panic", String::new()),
+    };
+    let (body, lit) = match text.find(':') {
+        Some(i) => (text[..i].to_string(), text[i..].to_string()),
+        None => (text.clone(), String::new()),
+    };
+    let t2 = text.clone();
+    let back = guarded(move || match t2.parse::<HandRangeToken>() {
+        Ok(u) => {
+            let eq = (u == make_token(kind, t, h, k, e, c, w)) as i32;
+            Some((eq, u.into_iter().collect::<Vec<_>>()))
+        }
+        Err(_) => None,
+    });
+    let (res, eq, backj) = match back {
+        Some(Some((eq, v))) => ("ok", eq, exp_json(&v)),
+        Some(None) => ("err", -1, "[]".to_string()),
+        None => ("panic", -2, "[]".to_string()),
+    };
+    let (ores, origj) = match orig {
+        Some(v) => ("ok", exp_json(&v)),
+        None => ("panic", "[]".to_string()),
+    };
+    out.line(&format!(
+        "{{\"op\":\"ctok\",\"kind\":\"{}\",\"t\":\"{}\",\"h\":{},\"k\":{},\"e\":{},\"c\":[{},{}],\"w\":{},\"fmt\":\"{}\",\"body\":{},\"lit\":{},\"res\":\"{}\",\"eq\":{},\"ores\":\"{}\",\"orig\":{},\"back\":{}}}",
+        kind, t, h, k, e, c.0, c.1, wbits(w.to_bits()), fmtres, chars1(&body), chars1(&lit), res, eq, ores, origj, backj
+    ));
+}
+
+const CW: [f32; 10] = [1.0, 0.0, 1e-45, 0.1, 0.99999994, 0.5, 1e-10, 0.3, 1.1754944e-38, 0.33333334];
+
+pub fn record_ctok(args: &Args, out: &mut Out) {
+    let mut rng = Rng::new(args.num("seed", 1) ^ 0xC70C);
+    let per = args.num("ctok-weights", 2) as usize;
+    let mut n = 0usize;
+    let mut emit = |kind: &'static str, t: &'static str, h: usize, k: usize, e: usize, c: (usize, usize), out: &mut Out, rng: &mut Rng| {
+        for j in 0..per {
+            let w = if j == 0 { CW[n % CW.len()] } else { f32::from_bits(rng.below(0x3f80_0001) as u32) };
+            ctok_event(kind, t, h, k, e, c, w, out);
+        }
+        n += 1;
+    };
+    for r in 0..13 {
+        emit("single", "P", r, r, 0, (0, 1), out, &mut rng);
+        emit("plus", "P", r, r, 0, (0, 1), out, &mut rng);
+        for e in (r + 1)..13 {
+            emit("span", "P", r, r, e, (0, 1), out, &mut rng);
+        }
+    }
+    for t in ["S", "O"] {
+        for h in 0..12 {
+            for k in (h + 1)..13 {
+                emit("single", t, h, k, 0, (0, 1), out, &mut rng);
+                emit("plus", t, h, k, 0, (0, 1), out, &mut rng);
+                for e in (k + 1)..13 {
+                    emit("span", t, h, k, e, (0, 1), out, &mut rng);
+                }
+            }
+        }
+    }
+    for a in 0..52 {
+        for b in (a + 1)..52 {
+            // the constructor is given the cards in either order
+            let c = if (a + b) % 2 == 0 { (a, b) } else { (b, a) };
+            emit("cards", "P", 0, 0, 0, c, out, &mut rng);
+        }
+    }
+}
+
 fn unused(_: Cfg, _: Entry) {}
